@@ -10,6 +10,7 @@ before they are printed, serialised or compared, and derived containers are
 computed after the sort (R5.3); observations are dominated by the exit of the
 receive loop, which only ends on disconnect (R5.4).
 Not decided: what the OS/thread library delivers; timing."""
+import re
 from ..mir import callee_of, origin_calls, show_origin
 from ..thir import Evaluator
 from ..facts import where
@@ -21,6 +22,30 @@ ST = "fastpasta::stats::StatType"
 MULTI_INSTANCE_ROLES = {"dispatch_by_id": "one validator thread is spawned per link / FEE ID"}
 STABLE_SORTS = ("::sort_by_cached_key", "::sort_by_key", "::sort_by", "::sort")
 UNSTABLE = ("::sort_unstable", "::sort_unstable_by", "::sort_unstable_by_key")
+
+
+MUT_CALLS = ("::push", "::extend", "::append", "::insert", "::extend_from_slice", "::push_str", "::push_back", "::push_front")
+
+
+def mutated_receivers(f, cg, body, depth=0):
+    """receiver provenance strings of all container-growing calls in a body, including the bodies of closures
+    created in it (captured variables are mapped back to what was captured)"""
+    out = []
+    for bb, t, c2, ci in body.calls():
+        if c2 and c2.startswith(("alloc::vec::Vec", "alloc::string::String", "alloc::collections")) and any(c2.endswith(m) for m in MUT_CALLS):
+            out.append(show_origin(body.origin(t["args"][0])))
+    if depth < 3:
+        for i_, j_, st in body.stmts():
+            if st["k"] == "assign" and st["rv"]["k"] == "agg" and st["rv"].get("closure") and st["rv"]["closure"] in f.fns and f.fns[st["rv"]["closure"]].get("mir"):
+                caps = [show_origin(body.origin(op_)) for op_ in st["rv"]["ops"]]
+                cb = cg.body(st["rv"]["closure"])
+                for so in mutated_receivers(f, cg, cb, depth + 1):
+                    m_ = re.match(r"^&?\*?arg1\*?\.(\d+)(\*?)(.*)$", so.replace("(", "").replace(")", "")) or re.match(r"^&?arg1\*?\.(\d+)(\*?)(.*)$", so)
+                    if m_ and int(m_.group(1)) < len(caps):
+                        out.append(caps[int(m_.group(1))] + m_.group(3))
+                    else:
+                        out.append(so)
+    return out
 
 
 def normalisation_rules(ctx, rep):
@@ -155,6 +180,46 @@ def run(ctx, rep):
                   "accumulator of multi-producer StatType::%s is not a pure field-wise sum: %s" % (v, why or cals))
     # ---------- R5.3
     normalisation_rules(ctx, rep)
+    # every order-sensitive container that is filled while multi-producer messages ARRIVE must be normalised in
+    # finalize: sorted, or rebuilt wholesale from normalised data (helpers inlined, so it does not matter where
+    # the push sits)
+    from ..mir import Body, inline_fn
+    MUT = ("::push", "::extend", "::append", "::insert", "::extend_from_slice", "::push_str", "::push_back", "::push_front")
+    es_adt = f.adts.get(ES.rstrip(":"))
+    es_mod = ES.rsplit("::", 2)[0] + "::"
+    arrival = {}
+    for v in sorted(got_multi - {"Fatal"}):
+        for cal in arm_callee.get(v, []):
+            if cal not in f.fns or not f.fns[cal].get("mir"):
+                continue
+            bi = Body(inline_fn(f, cal, lambda c: c.startswith(SC), max_depth=3, max_blocks=1500))
+            for so in mutated_receivers(f, cg, bi):
+                m_ = re.search(r"arg1\*?((?:\.[A-Za-z_]\w*)+)\*?$", so.lstrip("&"))
+                if m_:
+                    arrival.setdefault(m_.group(1).lstrip("."), set()).add("%s via %s" % (v, cal.split("::")[-1]))
+    rep.floor("R5.3-arrival-fields", len(arrival), 1, "containers filled in arrival order by multi-producer messages")
+    fzb = Body(inline_fn(f, SC + "StatsCollector::finalize", lambda c: c.startswith(SC), max_depth=4, max_blocks=3000)) if SC + "StatsCollector::finalize" in f.fns else None
+    for fld, how in sorted(arrival.items()):
+        leaf = fld.split(".")[-1]
+        norm = []
+        if fzb is not None:
+            for bb, t, c2, ci in fzb.calls():
+                if c2 and "::sort" in c2 and re.search(r"\.%s\b" % re.escape(leaf), show_origin(fzb.origin(t["args"][0]))):
+                    norm.append(bb)
+            for i_, j_, st in fzb.stmts():
+                if st["k"] == "assign":
+                    pr = st["lhs"].get("p", [])
+                    if pr and isinstance(pr[-1], list) and pr[-1][0] == "f" and len(pr[-1]) > 2 and pr[-1][2] == leaf:
+                        norm.append(i_)
+        # `if self.is_finalized { return; }` — already normalised by an earlier call
+        done = []
+        for x in fzb.live_blocks():
+            tt = fzb.blocks[x]["t"]
+            if tt["k"] == "switch" and show_origin(fzb.origin(tt["d"])).endswith(".is_finalized"):
+                done += [tt["else"]] if any(v[0] == 0 for v in tt["vals"]) else [v[1] for v in tt["vals"] if v[0] != 0]
+        ok = bool(norm) and fzb.all_paths_pass(0, norm + done, to=[x for x in fzb.return_blocks()])
+        rep.check(ok, "R5.3", "R5.3|arrival_ordered|%s" % fld, "%s (filled on arrival: %s) is sorted or rebuilt in finalize on every path" % (fld, sorted(how)), ES,
+                  "%s is filled in message-arrival order (%s) and finalize neither sorts it nor rebuilds it: its order depends on thread scheduling" % (fld, sorted(how)))
 
     # ---------- R5.4 observations after the receive loop ended by disconnect
     cr = "fastpasta::controller::Controller::<C>::run"
